@@ -4,8 +4,12 @@ PATCH=$1; shift
 cd /verif
 git -C /repo apply $PATCH || { echo "patch does not apply to /repo"; exit 1; }
 for p in "$@"; do
-  ./check $p 2>&1 | grep -E "^VIOLATION|^KNOWN-FINDING|^$p |^ERROR" | cut -c1-260 | grep -v "^  " | head -4
+  ./check $p > /tmp/try_seed.$$.log 2>&1
+  grep -E "^VIOLATION|^ERROR" /tmp/try_seed.$$.log | cut -c1-200 | head -2
+  grep -E "^$p " /tmp/try_seed.$$.log | cut -c1-200 | tail -1
+  rm -f /tmp/try_seed.$$.log
 done
 git -C /repo checkout -- . 
 git -C /repo status --short | head -3
 ./build.sh >/dev/null 2>&1
+git -C /verif checkout -- evidence 2>/dev/null   # evidence written during a run against a seeded change is not kept
